@@ -275,7 +275,13 @@ Next == x' = x
             o = int(rng.choice(OFFS))
             pos = positions(ms, shape, box, np.float32)
             d = o * (box / nmesh) / Q
-            f = get_field(pos.copy(), box, nmesh, kind, w=None, d=d, nthread=1 + rep % 3, dtype=[np.float32, np.float64][(rep // 2) % 2])
+            psame = pos.copy()
+            f = get_field(psame, box, nmesh, kind, w=None, d=d, nthread=1 + rep % 3, dtype=[np.float32, np.float64][(rep // 2) % 2])
+            # the same positions array painted a second time gives the same field (an in-place periodic wrap is harmless; a displacement left behind is not)
+            f_again = get_field(psame, box, nmesh, kind, w=None, d=d, nthread=1 + rep % 3, dtype=[np.float32, np.float64][(rep // 2) % 2])
+            if not np.array_equal(f, f_again):
+                chk.violation(f'{kind}-get_field-second-call', f'get_field({kind}, d={o}/4 cell) called twice on the same positions array gives different fields '
+                              f'(the array moved by {float(np.abs(psame.astype(np.float64) - pos.astype(np.float64)).max())} in the meantime)', dict(fn='get_field', kind=kind, o=o))
             dep = (f.astype(np.float64) + 1.0) * npart / f.size
             # the overdensity normalisation is a float operation: tolerance 1e-6, far below the smallest
             # possible kernel discrepancy on this lattice (2^-15)
